@@ -29,7 +29,7 @@ OBLIGATIONS = ["NiftyVerif.C02." + t for t in (
     "weightApplier_spec", "weightApplier_modes", "distributor1_spec", "distributor1_adj_spec", "distributor_spec",
     "mask_spec", "mask_rows", "mask_adj_spec", "mask_adj_flagged", "pad1_plain_spec", "pad1_central_spec",
     "valueInserter_spec", "outerProduct_spec", "vdot_spec", "vdot_adj_spec", "diag_spec", "conjugation_involutive",
-    "conjugation_spec", "realizer_idempotent", "regrid1_spec", "regrid1_wf", "axisSelect_spec", "sliceIdx_spec", "shift1_inverse", "diagonalOp_spec", "models_wellformed", "transpose_inverse", "subdomain_granularity", "squeeze_is_identity", "identity_ops_spec", "block_ops_spec", "block_ops_wellformed", "einsum_spec", "einsum_adjoint", "einsum_adjoint_identity", "coo_comp_apply", "alongAxes_spec", "sliceSel_spec", "parseSpaces_ok", "fieldInserter_spec", "extractAt_spec", "matrixProduct_spec", "mask_adjoint", "padder_adjoint", "regridding_adjoint", "distributor_adjoint", "matrixProduct1_spec", "transpose2_inverse_partial")]
+    "conjugation_spec", "realizer_idempotent", "regrid1_spec", "regrid1_wf", "axisSelect_spec", "sliceIdx_spec", "shift1_inverse", "diagonalOp_spec", "models_wellformed", "transpose_inverse", "subdomain_granularity", "squeeze_is_identity", "identity_ops_spec", "block_ops_spec", "block_ops_wellformed", "einsum_spec", "einsum_adjoint", "einsum_adjoint_identity", "coo_comp_apply", "alongAxes_spec", "sliceSel_spec", "parseSpaces_ok", "harmonic_coo_adjoint", "fieldInserter_spec", "extractAt_spec", "matrixProduct_spec", "mask_adjoint", "padder_adjoint", "regridding_adjoint", "distributor_adjoint", "matrixProduct1_spec", "transpose2_inverse_partial")]
 RULE = ("one case = (operator class, constructor configuration generated from RGSpace/UnstructuredDomain/DOFSpace tuples of "
         "1-3 sub-domains with axis lengths 1-4(5), spaces subset, index arrays, flags, weights, dtype); non-trivial = the "
         "operator was constructed and has at least one non-zero matrix entry; distinct by canonical JSON of the case")
